@@ -155,11 +155,70 @@ func applyBatch(idx bleve.Index, ops []Op) error {
 	for _, op := range ops {
 		if op.Doc == nil {
 			b.Delete(op.ID)
-		} else if err := b.Index(op.ID, op.Doc); err != nil {
+		} else if err := b.Index(op.ID, represent(op.Doc, int(fnv32(op.ID))%4)); err != nil {
 			return err
 		}
 	}
 	return idx.Batch(b)
+}
+
+func fnv32(s string) uint32 {
+	h := uint32(2166136261)
+	for i := 0; i < len(s); i++ {
+		h = (h ^ uint32(s[i])) * 16777619
+	}
+	return h
+}
+
+// represent returns the same logical document in another Go representation of its arrays of objects
+// (the answer of every search must not depend on it): 0 as generated ([]any of maps), 1 []any of
+// pointers to maps, 2 []map[string]any, 3 []*map[string]any.
+func represent(v any, variant int) any {
+	switch x := v.(type) {
+	case map[string]any:
+		out := make(map[string]any, len(x))
+		for k, e := range x {
+			out[k] = represent(e, variant)
+		}
+		return out
+	case []any:
+		objs := len(x) > 0
+		for _, e := range x {
+			if _, ok := e.(map[string]any); !ok {
+				objs = false
+			}
+		}
+		if !objs || variant == 0 {
+			out := make([]any, len(x))
+			for i, e := range x {
+				out[i] = represent(e, variant)
+			}
+			return out
+		}
+		switch variant {
+		case 1:
+			out := make([]any, len(x))
+			for i, e := range x {
+				m := represent(e, variant).(map[string]any)
+				out[i] = &m
+			}
+			return out
+		case 2:
+			out := make([]map[string]any, len(x))
+			for i, e := range x {
+				out[i] = represent(e, variant).(map[string]any)
+			}
+			return out
+		default:
+			out := make([]*map[string]any, len(x))
+			for i, e := range x {
+				m := represent(e, variant).(map[string]any)
+				out[i] = &m
+			}
+			return out
+		}
+	}
+	return v
 }
 
 type Result struct {
@@ -168,15 +227,23 @@ type Result struct {
 }
 
 type ReqOpt struct {
-	Size     int  `json:"size"`
-	From     int  `json:"from"`
-	SortByID bool `json:"sort_by_id"`
+	Size     int    `json:"size"`
+	From     int    `json:"from"`
+	SortByID bool   `json:"sort_by_id"`
+	After    string `json:"search_after_id,omitempty"`  // with SortByID and From 0: hits strictly after this id
+	Before   string `json:"search_before_id,omitempty"` // with SortByID and From 0: the Size hits right before this id
 }
 
 func search(idx bleve.Index, q *Q, o ReqOpt) (Result, error) {
 	req := bleve.NewSearchRequestOptions(BuildQuery(q), o.Size, o.From, false)
 	if o.SortByID {
 		req.SortBy([]string{"_id"})
+	}
+	if o.After != "" {
+		req.SetSearchAfter([]string{o.After})
+	}
+	if o.Before != "" {
+		req.SetSearchBefore([]string{o.Before})
 	}
 	res, err := idx.SearchInContext(context.Background(), req)
 	if err != nil {
@@ -204,6 +271,19 @@ func checkResult(exp []string, got Result, o ReqOpt) string {
 		}
 		seen[id] = true
 	}
+	total := len(exp)
+	if o.After != "" || o.Before != "" {
+		var win []string
+		for _, id := range exp {
+			if (o.After != "" && id > o.After) || (o.Before != "" && id < o.Before) {
+				win = append(win, id)
+			}
+		}
+		if o.Before != "" && len(win) > o.Size {
+			win = win[len(win)-o.Size:]
+		}
+		exp = win
+	}
 	lo := o.From
 	if lo > len(exp) {
 		lo = len(exp)
@@ -230,7 +310,7 @@ func checkResult(exp []string, got Result, o ReqOpt) string {
 			}
 		}
 	}
-	if got.Total != uint64(len(exp)) {
+	if got.Total != uint64(total) {
 		return "total"
 	}
 	return ""
